@@ -429,6 +429,15 @@ func extBytesEqual(fr *frame, args []value) value {
 		}
 		panic(abortPath{"bytes.Equal between a blob and JSON-looking bytes"})
 	}
+	// signatures of the functional model: equal bytes iff same key and same
+	// signed content (ed25519 signing is deterministic); never equal to bytes
+	// that are not a signature
+	if sa, sb := sigOf(a), sigOf(b); sa != nil || sb != nil {
+		if sa == nil || sb == nil {
+			return false
+		}
+		return mkBool(deepEqTerm(a, b, 0))
+	}
 	if len(a) != len(b) {
 		return false
 	}
